@@ -145,3 +145,27 @@ def cvc5_crosscheck(constraints, timeout_s=60):
         return res or "n/a"
     except Exception as e:  # pragma: no cover
         return "n/a"
+
+
+def flatten_div(e, obligations):
+    """rewrite nested divisions p/(a/b) -> p*b/a; appends the definedness side conditions (a != 0, b != 0) that make the
+    rewriting an identity to `obligations` (to be proved separately)"""
+    if z3.is_app(e) and e.decl().kind() == z3.Z3_OP_DIV:
+        n = flatten_div(e.arg(0), obligations)
+        d = flatten_div(e.arg(1), obligations)
+        if z3.is_app(d) and d.decl().kind() == z3.Z3_OP_DIV:
+            a, b = d.arg(0), d.arg(1)
+            obligations.append(b != 0)
+            obligations.append(a != 0)
+            return n * b / a
+        return n / d
+    if z3.is_app(e) and e.num_args() > 0 and e.decl().kind() in (z3.Z3_OP_ADD, z3.Z3_OP_MUL, z3.Z3_OP_SUB, z3.Z3_OP_UMINUS):
+        ch = [flatten_div(c, obligations) for c in e.children()]
+        k = e.decl().kind()
+        if k == z3.Z3_OP_UMINUS:
+            return -ch[0]
+        r = ch[0]
+        for c in ch[1:]:
+            r = r + c if k == z3.Z3_OP_ADD else (r * c if k == z3.Z3_OP_MUL else r - c)
+        return r
+    return e
